@@ -385,9 +385,9 @@ func (c *checker) named(pos, where string, n graphql.Type, want position) {
 	if err != nil {
 		// the constructor (or a lazy initialiser) refused this type and the
 		// error was never surfaced; an empty name and a missing map entry
-		// follow from that
-		if !c.parked[n] {
-			c.parked[n] = true
+		// follow from that. Reported once, at the reference through which
+		// the type was first reached.
+		if first {
 			c.add("parked-error:"+pos, where, "%s %q carries Error() = %v", kind, name, err)
 		}
 		if name == "" {
@@ -411,6 +411,12 @@ func (c *checker) named(pos, where string, n graphql.Type, want position) {
 			p.DontCare = true
 		}
 		c.addP(p)
+	case in != n && pos == "directive-arg-type":
+		// follows from the same open question: a type that is only
+		// reachable through a directive argument is not owed to the map, so
+		// it cannot collide with the map's entry of that name either
+		c.addP(Problem{Class: "dup-type-name:directive-arg-type", Where: where, DontCare: true,
+			Msg: fmt.Sprintf("a %s named %q other than the type map's entry is reachable only through a directive argument", kind, name)})
 	case in != n:
 		c.add("dup-type-name", where, "two different type objects are named %q (one in the type map, a different %s reachable here)", name, kind)
 	}
@@ -425,13 +431,27 @@ func safeName(n graphql.Type) (s string) {
 	return n.Name()
 }
 
+// broken: the type carries an error after its lazy parts were evaluated.
+// What Fields() / Interfaces() / Types() return for such a type is partial
+// and depends on map iteration inside the library, so nothing is read from
+// it; the parked error itself is reported by the caller.
+func (c *checker) broken(n graphql.Type) (b bool) {
+	c.safe(safeName(n)+".Error()", func() { b = n.Error() != nil })
+	return b
+}
+
 // walk visits everything a named type refers to.
 func (c *checker) walk(n graphql.Type, kind string) {
 	name := safeName(n)
 	switch t := n.(type) {
 	case *graphql.Object:
 		var ifaces []*graphql.Interface
+		var fm graphql.FieldDefinitionMap
 		c.safe(name+".Interfaces()", func() { ifaces = t.Interfaces() })
+		c.safe(name+".Fields()", func() { fm = t.Fields() })
+		if c.broken(t) {
+			return
+		}
 		for i, it := range ifaces {
 			if it == nil {
 				c.add("nil-interface", fmt.Sprintf("%s.Interfaces()[%d]", name, i), "nil interface in the interface list")
@@ -439,12 +459,13 @@ func (c *checker) walk(n graphql.Type, kind string) {
 			}
 			c.ref("interface", fmt.Sprintf("%s implements #%d", name, i), it, anyPos)
 		}
-		var fm graphql.FieldDefinitionMap
-		c.safe(name+".Fields()", func() { fm = t.Fields() })
 		c.fields(name, fm)
 	case *graphql.Interface:
 		var fm graphql.FieldDefinitionMap
 		c.safe(name+".Fields()", func() { fm = t.Fields() })
+		if c.broken(t) {
+			return
+		}
 		c.fields(name, fm)
 		var ps []*graphql.Object
 		c.safe("PossibleTypes("+name+")", func() { ps = c.s.PossibleTypes(t) })
@@ -459,6 +480,9 @@ func (c *checker) walk(n graphql.Type, kind string) {
 	case *graphql.Union:
 		var ms []*graphql.Object
 		c.safe(name+".Types()", func() { ms = t.Types() })
+		if c.broken(t) {
+			return
+		}
 		for i, m := range ms {
 			if m == nil {
 				c.add("nil-union-member", fmt.Sprintf("%s.Types()[%d]", name, i), "nil object among the union members")
@@ -491,6 +515,9 @@ func (c *checker) walk(n graphql.Type, kind string) {
 	case *graphql.InputObject:
 		var fm graphql.InputObjectFieldMap
 		c.safe(name+".Fields()", func() { fm = t.Fields() })
+		if c.broken(t) {
+			return
+		}
 		keys := make([]string, 0, len(fm))
 		for k := range fm {
 			keys = append(keys, k)
@@ -619,6 +646,9 @@ func (c *checker) implements(o *graphql.Object) {
 	if !c.safe(oname+".Fields()", func() { ofm = o.Fields() }) {
 		return
 	}
+	if c.broken(o) {
+		return
+	}
 	for _, it := range ifaces {
 		if it == nil {
 			continue
@@ -626,6 +656,9 @@ func (c *checker) implements(o *graphql.Object) {
 		iname := safeName(it)
 		var ifm graphql.FieldDefinitionMap
 		if !c.safe(iname+".Fields()", func() { ifm = it.Fields() }) {
+			continue
+		}
+		if c.broken(it) {
 			continue
 		}
 		keys := make([]string, 0, len(ifm))
